@@ -232,6 +232,9 @@ class EphysAlfCreator(object):
             spikes_depths = clusters_depths[spike_clusters]
         else:
             spikes_depths = self.model.get_depths()
+            if spikes_depths is None:
+                # The features do not cover all spikes.
+                spikes_depths = clusters_depths[spike_clusters]
         self._save_npy('spikes.depths.npy', spikes_depths, np.float32)
         self._save_npy('clusters.depths.npy', clusters_depths)
 
